@@ -53,14 +53,19 @@ func retryAt() []int {
 // LadderCase is one case (and its replay artefact).
 type LadderCase struct {
 	Kind   string `json:"kind"`   // "ladder"
-	Entry  string `json:"entry"`  // what is cached when the invalidation fails: row | placeholder | index
+	Entry  string `json:"entry"`  // what is cached when the invalidation fails: row | placeholder | index | ixplaceholder (not-found marker under the index key)
 	Ctx    string `json:"ctx"`    // b = Exec with a background context, c = request context cancelled after the call
 	Outage int    `json:"outage"` // seconds (cleaner ticks) the outage lasts after the write
 	Jit    int    `json:"jit"`    // index into the jitter menu (answer of the random source)
+	RType  string `json:"rtype,omitempty"` // "" = node-type redis client; "ct" = redis.ClusterType client: the failed invalidation is retried key by key
 }
 
 func (c LadderCase) String() string {
-	return fmt.Sprintf("stale %s, Exec ctx=%s, outage ends %d s after the failed invalidation, random source answers %s", c.Entry, c.Ctx, c.Outage, fmt.Sprint(jitterMenu[c.Jit%len(jitterMenu)]))
+	rt := ""
+	if c.RType != "" {
+		rt = ", redis client type " + c.RType
+	}
+	return fmt.Sprintf("stale %s, Exec ctx=%s, outage ends %d s after the failed invalidation, random source answers %s%s", c.Entry, c.Ctx, c.Outage, fmt.Sprint(jitterMenu[c.Jit%len(jitterMenu)]), rt)
 }
 
 // outageLengths: T-1, T, T+1 for every retry time T of the ladder (T-1: the retry at T is the
@@ -107,6 +112,9 @@ func runLadder(c LadderCase, verbose bool) ladderResult {
 	e := vsched.RunSeq(func() {
 		vsched.DaemonChildren(true)
 		s := newSutWith(false, ladderExpiry, ladderExpiry)
+		if c.RType == "ct" {
+			s = newSutRedis(false, env.clusterTypeRedis(), []cache.Option{cache.WithExpiry(ladderExpiry), cache.WithNotFoundExpiry(ladderExpiry)})
+		}
 		s.tk = &hTicker{c: vsched.MakeChan[time.Time](1)}
 		now := 0
 		if err := cache.VerifInstallCleaner(s.tk, func(keys []string, delay time.Duration) {
@@ -171,6 +179,10 @@ func runLadder(c LadderCase, verbose bool) ladderResult {
 			exec(true, "v1", "b")
 			got, want = read("qidx"), "row:v1"
 			api = "qidx"
+		case "ixplaceholder":
+			// the not-found marker under the INDEX key (a read by name of a row that does not exist yet)
+			got, want = read("qidx"), "notfound"
+			api = "qidx"
 		default:
 			out.fail = fail("harness", "unknown entry kind %q", c.Entry)
 			return
@@ -193,6 +205,9 @@ func runLadder(c LadderCase, verbose bool) ladderResult {
 		case "index":
 			exec(false, "", c.Ctx)
 			dbAfter = "notfound"
+		case "ixplaceholder":
+			exec(true, "v1", c.Ctx)
+			dbAfter = "row:v1"
 		}
 		dbVal := ""
 		if r := s.db.rows[1]; r != nil {
@@ -309,7 +324,7 @@ func runLadder(c LadderCase, verbose bool) ladderResult {
 
 // ---- enumeration ----
 
-var ladderEntries = []string{"row", "placeholder", "index"}
+var ladderEntries = []string{"row", "placeholder", "index", "ixplaceholder"}
 
 // one shard per (entry kind, random-source answer); inside: context kinds x outage lengths, shortest first
 func ladderShards() []string {
@@ -329,9 +344,16 @@ func runLadderShard(cfg *vlib.Config, r *vlib.Report, shard string) {
 	ctxs := []string{"c", "b"}
 	cases, checked, ticks, maxAttempts := 0, 0, 0, 0
 	classes := map[string]bool{}
-	for _, l := range outageLengths(cfg.Thorough()) {
+	type variant struct{ ctx, rtype string }
+	var variants []variant
+	for _, rt := range []string{"", "ct"} {
 		for _, cx := range ctxs {
-			c := LadderCase{Kind: "ladder", Entry: f[1], Ctx: cx, Outage: l, Jit: jit}
+			variants = append(variants, variant{cx, rt})
+		}
+	}
+	for _, l := range outageLengths(cfg.Thorough()) {
+		for _, vr := range variants {
+			c := LadderCase{Kind: "ladder", Entry: f[1], Ctx: vr.ctx, Outage: l, Jit: jit, RType: vr.rtype}
 			res := runLadder(c, false)
 			if res.fail != nil && res.fail.class != "harness" {
 				// as in hist.go: a failure is believed only if it reproduces (TCP to miniredis on a starved machine)
@@ -366,10 +388,10 @@ func runLadderShard(cfg *vlib.Config, r *vlib.Report, shard string) {
 			if res.checked {
 				checked++
 				// non-trivial: a stale entry existed and the oracle applied after a retry against a healthy store
-				r.Nontrivial(fmt.Sprintf("ladder|%s|%s|%d|%d|retries=%v", c.Entry, c.Ctx, c.Outage, c.Jit, res.attempts))
+				r.Nontrivial(fmt.Sprintf("ladder|%s|%s%s|%d|%d|retries=%v", c.Entry, c.Ctx, c.RType, c.Outage, c.Jit, res.attempts))
 			}
 		}
 	}
 	r.Scenario(shard, map[string]any{"cases": cases, "coherence_demanded": checked, "cleaner_ticks": ticks, "max_retries_in_a_case": maxAttempts,
-		"outage_lengths_s": outageLengths(cfg.Thorough()), "exec_contexts": ctxs})
+		"outage_lengths_s": outageLengths(cfg.Thorough()), "exec_contexts": ctxs, "redis_client_types": []string{"node", "cluster"}})
 }
